@@ -789,6 +789,9 @@ def run(ctx):
         return lines
 
     lines = harness_lines()
+    if os.environ.get("C11_DUMP"):
+        with open(os.environ["C11_DUMP"], "w") as f:
+            f.write("\n".join(json.dumps(l) for l in lines) + "\n")
     impl = {}
     for prof, path in bins.items():
         rc, out = run_harness(path, lines)
